@@ -7,8 +7,8 @@ output: {"results": [{"steps": [obs0, obs1, ...]}, ...]}     obs0 = after connec
 obs   : {"applied": bool, "out": [[t_ms, kind, ...], ...], "state": str, "now": ms, "timers": [abs ms, ...],
          "flags": {...}, "txt": hex of the reason octets of an internally generated close frame written in this step}
 
-cfg   : role, failByDrop, echo, openTO, closeTO, dropTO, pingInt, pingTO (all ms), pingSize, restart, t0 (ms)
-events: ["hs"] ["badhs"] ["sendClose", code|null, reasonhex|null] ["sendMessage"] ["sendPing"] ["sendPong"]
+cfg   : proxy (client: explicit HTTP proxy), role, failByDrop, echo, openTO, closeTO, dropTO, pingInt, pingTO (all ms), pingSize, restart, t0 (ms)
+events: ["proxyok"] ["proxybad"] ["hs"] ["badhs"] ["sendClose", code|null, reasonhex|null] ["sendMessage"] ["sendPing"] ["sendPong"]
         ["sendMessageSync"] ["sendChopped"] ["tickus", microseconds]   (send queue; not in the Gallina model)
         ["peerClose", code|null, reasonhex|null] ["peerClose1"] ["peerData"] ["peerPing"] ["peerPong", matching]
         ["peerViolation"] ["peerInvalid"] ["tick", t_ms] ["tickrel", "next"|ms] ["peerDrop", clean] ["ownDrop"]
@@ -73,7 +73,10 @@ class Case:
                     autoPingSize=cfg["pingSize"], autoPingRestartOnAnyTraffic=cfg["restart"])
         if self.role == "client":
             opts["serverConnectionDropTimeout"] = self.sec(cfg["dropTO"])
-        self.c = self.env.connect(self.role, options=opts)
+        fkw = {}
+        if cfg.get("proxy") and self.role == "client":
+            fkw["proxy"] = {"host": "127.0.0.1", "port": 8080}     # explicit HTTP proxy: CONNECT first (STATE_PROXY_CONNECTING)
+        self.c = self.env.connect(self.role, options=opts, factory_kwargs=fkw)
         self.log = self.c.log
         self.p = self.c.proto
         self.gone = False
@@ -214,6 +217,10 @@ class Case:
             if self.gone or st != "CONNECTING":
                 return False
             self.handshake(k == "hs")
+        elif k in ("proxyok", "proxybad"):
+            if self.gone or st != "PROXY_CONNECTING":
+                return False
+            self.feed(b"HTTP/1.1 200 Connection established\r\n\r\n" if k == "proxyok" else b"HTTP/1.1 403 Forbidden\r\n\r\n")
         elif k == "sendClose":
             code, rh = ev[1], ev[2]
             kw = {}
@@ -260,7 +267,7 @@ class Case:
             self.gone = True
             c.lost(clean=True); self.settle()
         else:
-            if self.gone or st == "CONNECTING":
+            if self.gone or st in ("CONNECTING", "PROXY_CONNECTING"):
                 return False
             if k == "peerClose":
                 code, rh = ev[1], ev[2]
@@ -307,7 +314,7 @@ class Case:
             k = e[0]
             if k == "write":
                 data = bytes.fromhex(e[1])
-                if self.wbuf == b"" and (data[:4] in (b"GET ", b"HTTP") or data[:1] == b"<"):
+                if self.wbuf == b"" and (data[:4] in (b"GET ", b"HTTP", b"CONN") or data[:1] == b"<"):
                     out.append([t, "http"])
                     continue
                 self.wbuf += data
